@@ -1,6 +1,7 @@
 CONSTANTS
   Comp = {"a", "b"}
   MaxDepth = 2
+  BatchMembers <- MCBatch
   MaxTape = 4
   Chunks = {"c1"}
   AttrVals = {1}
